@@ -164,6 +164,23 @@ class Source:
                     start=start, open=ob, close=cb,
                     start_line=self.line_of(start), end_line=self.line_of(cb))
 
+    def cut_decl(self, name: str, within=None):
+        """a bodiless fn declaration `fn name(..) -> T;` (trait method)"""
+        lo, hi = (0, len(self.text)) if within is None else within
+        m = re.search(r'fn\s+' + re.escape(name) + r'\b', self.mask[lo:hi])
+        if not m:
+            raise CutError(f'{self.path}: fn {name} (declaration) not found')
+        start = lo + m.start()
+        i = lo + m.end()
+        while i < len(self.mask) and self.mask[i] not in ';{':
+            if self.mask[i] in '([':
+                i = match_close(self.mask, i)
+            i += 1
+        if i >= len(self.mask) or self.mask[i] != ';':
+            raise CutError(f'{self.path}: fn {name} is not a bodiless declaration any more')
+        return dict(text=self.text[start:i + 1], sig=self.text[start:i], body=';', start=start, open=i, close=i,
+                    start_line=self.line_of(start), end_line=self.line_of(i))
+
     def block_range(self, header_re: str, which=0, within=None):
         lo, hi = (0, len(self.text)) if within is None else within
         start, ob, cb = self.find_block(header_re, lo, hi, which)
